@@ -13,7 +13,7 @@ RULE = ('2-4 real threads execute 1-3 statements each on one shared object: o.a 
         'dynamic programming over the interleavings of whole statements) is a violation. distinct_nontrivial = distinct context-switch '
         'sequences of runs mixing >= 2 statement kinds')
 CASES = {'quick': 2500, 'thorough': 150000}
-BUDGET = {'quick': 50, 'thorough': 1200}
+BUDGET = {'quick': 50, 'thorough': 300}
 REQUIRE = {'runs': 1000, 'runs_mixing_plain_and_augmented': 300, 'switch_between_get_and_set': 200}
 ASSUME = ['statement-level atomicity is the reference: the set of legal outcomes is that of all serial orders of whole statements']
 ANNOUNCE_CASES = True
